@@ -543,21 +543,46 @@ def make_default_class(defaults, overrides):
     return K
 
 
-def check_defaults(ctx, env, d_idx, o_idx, vals):
+def check_defaults(ctx, env, d_idx, o_idx, vals, o2_idx=None):
     """d_idx: indices into DEFAULTS for p0..p2; o_idx: {param: DEFAULTS idx};
-    vals: [(tag, spelling) or None] for p0..p2."""
+    vals: [(tag, spelling) or None] for p0..p2.  With o2_idx a subclass that
+    inherits __init__ and has its own _yatiml_defaults is judged first, then
+    the class itself, then the subclass again (state shared between classes
+    that share a constructor would show)."""
     ctx.count('default_pairs')
     defaults = [DEFAULTS[i] for i in d_idx]
     overrides = {k: DEFAULTS[i] for k, i in o_idx.items()}
     K = make_default_class(defaults, overrides)
     eff = {'p%d' % i: overrides.get('p%d' % i, defaults[i]) for i in range(3)}
+    case = {'kind': 'defaults', 'd': d_idx, 'o': o_idx, 'vals': vals,
+            'o2': o2_idx}
+    if o2_idx is None:
+        judge_defaults(ctx, env, K, eff, vals, case, '')
+        return
+    Sub = type('Sub', (K,), {})
+    over2 = {k: DEFAULTS[i] for k, i in o2_idx.items()}
+    Sub._yatiml_defaults = dict(over2)
+    eff2 = {'p%d' % i: over2.get('p%d' % i, defaults[i]) for i in range(3)}
+    ctx.count('default_family_cases')
+    judge_defaults(ctx, env, Sub, eff2, vals, case, ' class=subclass-first')
+    judge_defaults(ctx, env, K, eff, vals, case, ' class=base-after-subclass')
+    judge_defaults(ctx, env, Sub, eff2, vals, case,
+                   ' class=subclass-after-base')
+    if dict(getattr(Sub, '_yatiml_defaults')) != over2 or (
+            overrides and dict(K._yatiml_defaults) != overrides):
+        ctx.violation('C14 remove_defaults modified-_yatiml_defaults',
+                      '_yatiml_defaults of the classes changed: %r / %r' % (
+                          getattr(K, '_yatiml_defaults', None),
+                          Sub._yatiml_defaults), case)
+
+
+def judge_defaults(ctx, env, K, eff, vals, case, label):
     pairs = [[N.s_str('req'), N.s_str('r')]]
     for i, tv in enumerate(vals):
         if tv is not None:
             pairs.append([N.s_str('p%d' % i), ['s', tv[0], tv[1]]])
     pairs.append([N.s_str('other'), N.s_int(5)])
     spec = ['map', pairs]
-    case = {'kind': 'defaults', 'd': d_idx, 'o': o_idx, 'vals': vals}
     node = yatiml.Node(N.mk(spec))
     try:
         node.remove_attributes_with_default_values(K)
@@ -612,9 +637,9 @@ def check_defaults(ctx, env, d_idx, o_idx, vals):
                 continue
             if removed is not want:
                 ctx.violation(
-                    'C14 remove_defaults %s type=%s feature=%s' % (
+                    'C14 remove_defaults %s type=%s feature=%s%s' % (
                         'removed-unequal' if removed else 'kept-equal',
-                        type(d).__name__, spell_feature(tv[1])),
+                        type(d).__name__, spell_feature(tv[1]), label),
                     'attribute %s with value %r (%s %r) and default %r was %s'
                     % (name, v, tv[0], tv[1], d,
                        'removed' if removed else 'kept'), case)
@@ -716,6 +741,56 @@ def shard(ctx):
         vals_ = [ctx.rng.choice(flat) if ctx.rng.random() < 0.8 else None
                  for _ in range(3)]
         check_defaults(ctx, env, d_idx, o_idx, vals_)
+    # families: a subclass that inherits __init__ with its own _yatiml_defaults
+    for _ in range(ctx.budget(1500, 30000)):
+        d_idx = [ctx.rng.randrange(len(DEFAULTS)) for _ in range(3)]
+        o_idx, o2_idx = {}, {}
+        if ctx.rng.random() < 0.5:
+            o_idx['p%d' % ctx.rng.randrange(3)] = ctx.rng.randrange(
+                len(DEFAULTS))
+        for j in range(3):
+            if ctx.rng.random() < 0.5:
+                o2_idx['p%d' % j] = ctx.rng.randrange(len(DEFAULTS))
+        # values that coincide with one of the defaults in play
+        vals_ = []
+        for j in range(3):
+            pool = [d_idx[j]] + [o_idx.get('p%d' % j, d_idx[j]),
+                                 o2_idx.get('p%d' % j, d_idx[j])]
+            d = DEFAULTS[ctx.rng.choice(pool)]
+            sp = spelling_of(d)
+            vals_.append(sp if sp is not None and ctx.rng.random() < 0.8
+                         else ctx.rng.choice(flat))
+        check_defaults(ctx, env, d_idx, o_idx, vals_, o2_idx)
+    # values of other tags: dates, binary, foreign tags (never equal to a
+    # default of a built-in type; must not make the helper fail)
+    odd = [[S.TAG_TS, '2001-12-14'], [S.TAG_TS, '2001-12-14 21:59:43'],
+           ['tag:yaml.org,2002:binary', 'aGk='], ['!Custom', 'xyz'],
+           ['!Custom', '1'], ['tag:yaml.org,2002:value', '=']]
+    for k, ov in enumerate(odd):
+        for di in range(len(DEFAULTS)):
+            if ctx.mine(k * 100 + di):
+                check_defaults(ctx, env, [di, 0, 0], {}, [ov, None, None])
+
+
+def spelling_of(d):
+    if d is None:
+        return [S.TAG_NULL, 'null']
+    if isinstance(d, bool):
+        return [S.TAG_BOOL, 'true' if d else 'false']
+    if isinstance(d, int):
+        return [S.TAG_INT, str(d)]
+    if isinstance(d, float):
+        if math.isnan(d):
+            return [S.TAG_FLOAT, '.nan']
+        if math.isinf(d):
+            return [S.TAG_FLOAT, '.inf' if d > 0 else '-.inf']
+        r = repr(d)
+        if 'e' in r and '.' not in r:
+            r = r.replace('e', '.0e')
+        return [S.TAG_FLOAT, r]
+    if isinstance(d, str):
+        return [S.TAG_STR, d]
+    return None
 
 
 def replay(ctx, case):
@@ -730,4 +805,5 @@ def replay(ctx, case):
     elif k == 'spelling':
         check_spelling(ctx, env, case['s'])
     elif k == 'defaults':
-        check_defaults(ctx, env, case['d'], case['o'], case['vals'])
+        check_defaults(ctx, env, case['d'], case['o'], case['vals'],
+                       case.get('o2'))
